@@ -30,6 +30,26 @@ func init() {
 	}
 }
 
+// OffCurvePubkeys are 32-byte values that are no x coordinate of a curve point (found
+// by search at start-up, seed-pure), plus the field prime and the all-ones value.
+var OffCurvePubkeys []string
+
+// secp256k1's field prime p and group order n as 32-byte hex: out of range as r / s of a signature.
+const (
+	FieldPrimeHex = "fffffffffffffffffffffffffffffffffffffffffffffffffffffffefffffc2f"
+	GroupOrderHex = "fffffffffffffffffffffffffffffffebaaedce6af48a03bbfd25e8cd0364141"
+)
+
+func init() {
+	for i := 0; len(OffCurvePubkeys) < 4; i++ {
+		h := sha256.Sum256([]byte(fmt.Sprintf("verif-off-curve-%d", i)))
+		if _, err := schnorr.ParsePubKey(h[:]); err != nil {
+			OffCurvePubkeys = append(OffCurvePubkeys, hex.EncodeToString(h[:]))
+		}
+	}
+	OffCurvePubkeys = append(OffCurvePubkeys, FieldPrimeHex, "ffffffffffffffffffffffffffffffffffffffffffffffffffffffffffffffff")
+}
+
 // Pubkeys returns the first n pubkeys of the pool.
 func Pubkeys(n int) []string {
 	out := make([]string, n)
